@@ -732,10 +732,11 @@ def sources_cell(P, A):
 FILE_KINDS = ['roCreate', 'roCreate-completed', 'roStoryMove', 'roDelete', 'roStorySend', 'roElementAction',
               'roReplace', 'roMetadataReplace', 'unknown-xml', 'malformed', 'missing', 'directory',
               'latin1-roStoryDelete', 'binary-junk', 'roStoryMove-to-bottom', 'roElementAction-no-operation',
-              'roElementAction-odd-shape']
+              'roElementAction-odd-shape', 'roStoryAppend-no-message-id', 'roCreate-text-message-id']
 LATIN1_DOC = ('<?xml version="1.0" encoding="ISO-8859-1"?>\n<mos><messageID>%s</messageID><roStoryDelete>'
               '<roID>RO</roID><storyID>caf\u00e9</storyID></roStoryDelete></mos>')
-VALID_CLASS = {'latin1-roStoryDelete': 'StoryDelete', 'roStoryMove-to-bottom': 'StoryMove','roCreate': 'RunningOrder', 'roCreate-completed': 'RunningOrder (completed)', 'roStoryMove': 'StoryMove',
+VALID_CLASS = {'roStoryAppend-no-message-id': 'StoryAppend', 'roCreate-text-message-id': 'RunningOrder',
+               'latin1-roStoryDelete': 'StoryDelete', 'roStoryMove-to-bottom': 'StoryMove','roCreate': 'RunningOrder', 'roCreate-completed': 'RunningOrder (completed)', 'roStoryMove': 'StoryMove',
                'roDelete': 'RunningOrderEnd', 'roStorySend': 'StorySend', 'roElementAction': 'EAStorySwap',
                'roReplace': 'RunningOrderReplace', 'roMetadataReplace': 'MetaDataReplace'}
 
@@ -766,6 +767,14 @@ def file_of_kind(W, kind, i, mid=None):
         return W.doc(lambda: B.raw(lambda: M.story_move('a', None, msg_id=mid)), kind='file', name=name)
     if kind == 'roCreate':
         b = ro_builder(['a', 'b', 'c'], mid)
+    elif kind == 'roStoryAppend-no-message-id':
+        # classification is decided by the message element alone: the envelope may lack its messageID ...
+        def b():
+            root = msg_builder('roStoryAppend', 'a', mid, new_id='n')()
+            root.remove(root.find('messageID'))
+            return root
+    elif kind == 'roCreate-text-message-id':
+        b = ro_builder(['a', 'b'], 'n/a')      # ... or carry one that is not a number
     elif kind == 'roCreate-completed':
         def b():
             root = ro_builder(['a', 'b'], mid)()
@@ -1029,7 +1038,11 @@ def cli_merge_cell(P, A):
         if nonstrict:
             argv.append('-n')
         outfile = None
-        if outmode != 'stdout':
+        if outmode == 'over-input':
+            # the merged running order replaces the first input file (update in place)
+            outfile = paths[0]
+            argv += ['-o', outfile]
+        elif outmode != 'stdout':
             outfile = ('/virtual/out.xml' if outmode == 'file' else '/virtual/nodir/out.xml') if not W.replay else \
                 os.path.join(W._tmpdir(), 'out.xml' if outmode == 'file' else 'nodir/out.xml')
             argv += ['-o', outfile]
@@ -1037,7 +1050,7 @@ def cli_merge_cell(P, A):
             out = call(lambda: W.cli.main(argv), W.exc)
         B.hit()
         err = cap.err.getvalue()
-        if outfile and outmode == 'file' and W.replay and os.path.exists(outfile):
+        if outfile and outmode in ('file', 'over-input') and W.replay and os.path.isfile(outfile) and not ref.raised:
             cap.written[outfile] = open(outfile).read()
         if out.raised:
             sig = 'raised-' + type(out.exc).__name__
